@@ -134,7 +134,9 @@ static carquet_status_t decode_levels_rle(
     int64_t decoded = carquet_rle_decode_levels(
         data, data_size, bit_width, levels, num_values);
 
-    if (decoded < 0) {
+    /* A level section that ends before num_values levels is corrupt; the
+     * rest of the buffer was never written and must not reach the caller. */
+    if (decoded != num_values) {
         return CARQUET_ERROR_DECODE;
     }
 
@@ -432,7 +434,9 @@ carquet_status_t carquet_read_data_page_v1(
                 int64_t decoded = carquet_rle_decode_all(
                     ptr, remaining, bit_width, indices, non_null_count);
 
-                if (decoded < 0) {
+                if (decoded != non_null_count) {
+                    /* Fewer indices than values: the tail of the (reused)
+                     * index buffer is stale */
                     CARQUET_SET_ERROR(error, CARQUET_ERROR_DECODE, "Failed to decode dictionary indices");
                     return CARQUET_ERROR_DECODE;
                 }
